@@ -21,7 +21,7 @@ RULE = ('case = MultiChain over 2-5 configs of one generated pipeline (copies of
         'a value obtained through one member is served to the others without run and without reading the store again (audit hook); '
         'MultiChain.force marks in every member exactly the closure of the named tasks. non-trivial = >=2 members sharing >=1 task object and '
         'differing in >=1 task; distinct = hash(files, roots, steps)')
-REQUIRED = ['multichains', 'members_compared', 'identity_pairs_same', 'identity_pairs_different', 'values_observed', 'served_from_memory_across_members',
+REQUIRED = ['chains_on_shared_registry', 'object_config_multichains', 'multichains', 'members_compared', 'identity_pairs_same', 'identity_pairs_different', 'values_observed', 'served_from_memory_across_members',
             'multi_force_steps']
 ASSUMPTIONS = ['member configs have distinct names (MultiChain requires it)',
                'how often a task shared between members is recomputed by MultiChain.force(recompute=True) is not judged (one pass per chain)']
@@ -113,7 +113,20 @@ def run_multi_case(rng, res: CaseResult):
             steps.append(st)
             for j in range(k):
                 steps.append({'op': 'snapshot', 'chain': 'mc', 'member': names[j], 'light': True, 'mi': j})
-    witness = {'spec': spec, 'roots': roots, 'steps': [{kk: v for kk, v in s.items() if kk != 'roots'} for s in steps]}
+    # a further chain built later on the MultiChain's task registry (Chain(cfg, shared_tasks=...)), after values were computed
+    extra_ri = None
+    if rng.random() < 0.5:
+        extra_ri = rng.randrange(k)
+        pos = rng.randint(2, len(steps))
+        more = [{'op': 'build', 'chain': 'extra', 'root': roots[extra_ri], 'shared_from': 'mc'}]
+        for _ in range(rng.randint(1, 4)):
+            if rng.random() < 0.6:
+                more.append({'op': 'value', 'chain': 'extra', 'task': rng.choice(list(refs[extra_ri].tasks)), 'mi': 'extra'})
+            else:
+                mi2 = rng.randrange(k)
+                more.append({'op': 'value', 'chain': 'mc', 'member': names[mi2], 'task': rng.choice(list(refs[mi2].tasks)), 'mi': mi2})
+        steps = steps[:pos] + more + steps[pos:]
+    witness = {'spec': spec, 'roots': roots, 'steps': [{kk: v for kk, v in s.items() if kk not in ('roots', 'root')} for s in steps]}
     with Lab(spec) as lab:
         r = lab.run(steps)
         prob = session_problem(r)
@@ -188,6 +201,24 @@ def run_multi_case(rng, res: CaseResult):
     for st, o in zip(steps[1:], obs[1:]):
         here = f'step {o["step"]} {st["op"]} {st.get("member", "")} {st.get("task") or st.get("tasks") or ""}'
         runs = [x for x in o['runs'] if x['phase'] == 'start']
+        if st['op'] == 'build':
+            if not o['ok']:
+                res.violate(f'{here}: a chain built later on the MultiChain\'s task registry failed: {o.get("exc")}: {o.get("msg")}', witness=witness, facts={'tag': 'extra_build'})
+                return
+            res.count('chains_on_shared_registry')
+            objs = {}
+            for tn, d in o['snapshot']['tasks'].items():
+                ob_ = pool.get(d['id'])
+                if ob_ is None:
+                    ob_ = pool[d['id']] = Obj(d['id'], extra_ri)
+                    ob_.ref_name = tn
+                    ob_.names.append(tn)
+                objs[tn] = ob_
+            chains['extra'] = {'ri': extra_ri, 'objs': objs}
+            if [x for x in runs]:
+                res.violate(f'{here}: building a chain on the shared registry executed runs {[x["task"] for x in runs]}', witness=witness, facts={'tag': 'runs_on_build'})
+                return
+            continue
         if st['op'] == 'value':
             mi = st['mi']
             ch = chains[mi]
@@ -203,7 +234,8 @@ def run_multi_case(rng, res: CaseResult):
                 res.violate(f'{here}: value request failed: {o.get("exc")}: {o.get("msg")}', witness=witness, facts={'tag': 'value_error'})
                 return
             res.count('values_observed')
-            exp_digest = refs[mi].tasks[st['task']]['vdigest']
+            ri_ = ch['ri']
+            exp_digest = refs[ri_].tasks[st['task']]['vdigest']
             if o['vdigest'] != exp_digest:
                 res.violate(f'{here}: member chain returned a value that is not the result of this task under its own configuration '
                             f'(digest {o["vdigest"]}, reference {exp_digest})', witness=witness, facts={'tag': 'value'})
@@ -217,9 +249,9 @@ def run_multi_case(rng, res: CaseResult):
                 key = (refs[ob.ri].tasks[ob.ref_name]['slug'], refs[ob.ri].tasks[ob.ref_name]['key'])
                 if computed_by.get(key) not in (None, mi):
                     res.count('served_from_memory_across_members')
-                rp = refs[mi].tasks[st['task']]['rel_path']
+                rp = refs[ri_].tasks[st['task']]['rel_path']
                 reads = [p for ev, p in o['fs'] if ev == 'open_r' and rp and (p == rp or p.startswith(rp + '/'))]
-                if reads and refs[mi].tasks[st['task']]['spec']['data_kind'] not in ('lazy', 'dir', 'continues', 'empty_dir'):
+                if reads and refs[ri_].tasks[st['task']]['spec']['data_kind'] not in ('lazy', 'dir', 'continues', 'empty_dir'):
                     res.violate(f'{here}: the value was already in memory through another request but the store was read again: {reads[:3]}',
                                 witness=witness, facts={'tag': 'reread'})
                     return
@@ -254,9 +286,63 @@ def run_multi_case(rng, res: CaseResult):
         res.sample = {'roots': roots[:3], 'steps': witness['steps'][:10]}
 
 
+def run_objects_case(rng, res: CaseResult):
+    """MultiChain over Config OBJECTS sharing one upstream Config object, members differing by context / own values"""
+    from ..lab.harness import Lab
+    k = rng.randint(2, 4)
+    members = []
+    # every member overrides the SAME keys through its context: the upstream Config object is reused (and updated in place) by all members, so a
+    # member without an override would legitimately keep the previous member's value (in-place reuse of a caller-owned object, outside the statement)
+    keys = rng.sample(['x', 'y', 'w'], rng.randint(1, 3))
+    for i in range(k):
+        m = {'ctx': {kk: rng.choice([1, 2, 3, 'a', 'b']) for kk in keys}}
+        if rng.random() < 0.4:
+            m['z'] = rng.choice([7, 8])
+        members.append(m)
+    plan = {'x0': rng.choice([0, 10]), 'mid_separate': rng.random() < 0.5, 'members': members}
+    spec = {'pkg': 'labo_x', 'modules': [], 'files': {}, 'context_files': {}}
+    with Lab(spec) as lab:
+        r = lab.run([{'op': 'multi_objects', 'chain': 'mo', 'plan': plan}])
+    if session_problem(r):
+        res.inconclusive.append(session_problem(r))
+        return
+    o = r['steps'][0]
+    witness = {'plan': plan}
+    res.count('object_config_multichains')
+    if not o['ok']:
+        res.violate(f'MultiChain over Config objects {plan} failed: {o.get("exc")}: {o.get("msg")}', witness=witness, facts={'tag': 'objects_build'})
+        return
+    by_key = {}
+    for mname, tasks in o['members'].items():
+        alone = o['standalone'][mname]
+        if set(tasks) != set(alone):
+            res.violate(f'member {mname}: task names {sorted(tasks)} differ from the standalone chain {sorted(alone)}', witness=witness, facts={'tag': 'objects_names'})
+            return
+        for tn, d in tasks.items():
+            a = alone[tn]
+            for field in ('params', 'key', 'value'):
+                if d[field] != a[field]:
+                    res.violate(f'member {mname} of a MultiChain over Config objects: {field} of {tn} is {str(d[field])[:150]}, the standalone chain of the same config '
+                                f'gives {str(a[field])[:150]} (plan {plan})', witness=witness, facts={'tag': 'objects_' + field})
+                    return
+            by_key.setdefault((tn.split('::')[-1], d['key']), set()).add(d['id'])
+    for (slug, key), ids in by_key.items():
+        if len(ids) > 1:
+            res.violate(f'identical computations of {slug} are different objects across members (plan {plan})', witness=witness, facts={'tag': 'objects_not_shared'})
+            return
+    res.nt(jhash(plan))
+
+
 def run_case(case) -> CaseResult:
     res = CaseResult()
     rng = random.Random(case['seed'])
+    if case.get('objects'):
+        for i in range(case['n']):
+            run_objects_case(rng, res)
+            if res.violations:
+                break
+        res.sample = {'kind': 'config objects', 'n': case['n']}
+        return res
     for i in range(case['n']):
         run_multi_case(rng, res)
         if len(res.violations) > 3:
@@ -269,3 +355,5 @@ def cases(tier, seed):
     n = 150 if tier == 'quick' else 5000
     for i in range(n):
         yield {'n': 3, 'seed': rng.randrange(1 << 30)}
+        if i % 5 == 0:
+            yield {'n': 6, 'seed': rng.randrange(1 << 30), 'objects': True}
